@@ -246,9 +246,13 @@ PROPS = {
         "category": "other",
         "harness_modes": ["crosscheck"],
         "contract_module": "C11",
-        "depends": [("C14", ["Hardware.satisfies", "Hardware.__sub__", "Hardware.__add__", "Hardware.normalized", "Hardware._normalize_storage", "_reduce_storages"])],
+        "depends": [("C14", ["Hardware.satisfies", "Hardware.__sub__", "Hardware.__add__", "Hardware.normalized", "Hardware._normalize_storage", "_reduce_storages"]),
+                    ("HW", ["Hardware.get_storage", "Hardware.get_mount_point"])],
         "ignore_known_clauses": True,
-        "explanation": "Fragment. With a ghost flag `reserved` per job allocation (set when _allocate_job charges the job, cleared by _free_resources, both assumed), "
+        "explanation": "Fragment. Hardware.get_storage / get_mount_point (the lookups that decide on WHICH storage of a location a job directory is booked) are proved to return "
+        "the first storage whose mount point is the path or that the path was resolved to before, and to raise KeyError otherwise (a path merely beneath a mount point must be "
+        "resolved on the location: a deeper volume may be mounted in between). "
+        "With a ghost flag `reserved` per job allocation (set when _allocate_job charges the job, cleared by _free_resources, both assumed), "
         "DefaultScheduler.notify_status is proved, for every previous/new status pair of the engine's protocol and every allocation table: the new status is recorded and no "
         "other job's allocation is touched; _free_resources is called only on a reservation that exists (its precondition is an obligation at the call site) and at most once "
         "per notification; afterwards the job's hardware is reserved exactly if the job is FIREABLE or RUNNING; the scheduler's condition variable is notified exactly once, "
